@@ -7,6 +7,8 @@ import Proofs.Lemmas.C11GroupsEnum
 import Proofs.Lemmas.C11Compose
 import Proofs.Lemmas.C11PFormulas
 import Proofs.Lemmas.C11Basic
+import Proofs.Lemmas.C11TiedRec
+import Proofs.Lemmas.C11Misc
 
 namespace C11
 open Stats Stats.UStat Stats.UDist
@@ -94,5 +96,56 @@ theorem greater_exact_tied_partial (T : List Nat) (n1 n2 : Nat) (hT : UDist.hasT
   have := Nat.choose_pos (Nat.le_add_right n1 n2)
   simp at hlen
   omega
+
+/-! ### with `tied_recurrence_exact`: unconditional statements -/
+
+/-- **the tied CDF wrapper is the distribution function of the enumeration of assignments** -/
+theorem tied_cdf_is_cdf (T : List Nat) (hpos : ∀ t ∈ T, 0 < t) (hK : 2 ≤ T.length) (n1 n2 : Nat)
+    (hT : UDist.hasTies T = true) (hN : T.sum = n1 + n2) :
+    IsCDFOf (cdfPure n1 n2 T) (Spec.UExact.nullDistOf n1 (poolOf T)) :=
+  tied_cdf_is_cdf_of_recurrence T n1 n2 hT hN
+    (fun v => tied_recurrence_exact T hpos hK n1 (by omega) v)
+
+theorem less_exact_tied (T : List Nat) (hpos : ∀ t ∈ T, 0 < t) (hK : 2 ≤ T.length) (n1 n2 : Nat)
+    (hT : UDist.hasTies T = true) (hN : T.sum = n1 + n2) (u : Nat) (tu2 : Int) :
+    exactP (cdfPure n1 n2 T) .less (u : Int) tu2
+      = Spec.UExact.pLess (Spec.UExact.nullDistOf n1 (poolOf T)) u :=
+  less_exact_tied_partial T n1 n2 hT hN (fun v => tied_recurrence_exact T hpos hK n1 (by omega) v) u tu2
+
+theorem greater_exact_tied (T : List Nat) (hpos : ∀ t ∈ T, 0 < t) (hK : 2 ≤ T.length) (n1 n2 : Nat)
+    (hT : UDist.hasTies T = true) (hN : T.sum = n1 + n2) (u : Nat) (tu2 : Int) :
+    exactP (cdfPure n1 n2 T) .greater (u : Int) tu2
+      = Spec.UExact.pGreater (Spec.UExact.nullDistOf n1 (poolOf T)) u :=
+  greater_exact_tied_partial T n1 n2 hT hN (fun v => tied_recurrence_exact T hpos hK n1 (by omega) v) u tu2
+
+/-- **the tied mass function sums to 1** -/
+theorem pmf_sums_to_one_tied (T : List Nat) (hpos : ∀ t ∈ T, 0 < t) (hK : 2 ≤ T.length) (n1 n2 : Nat)
+    (hT : UDist.hasTies T = true) (hN : T.sum = n1 + n2) :
+    ∑ v ∈ Finset.range (2 * (n1 * n2) + 1), pmfPure n1 n2 T (v : Int) = 1 := by
+  have hlen : (Spec.UExact.nullDistOf n1 (poolOf T)).length = Nat.choose (n1 + n2) n1 := by
+    unfold Spec.UExact.nullDistOf
+    rw [List.length_map, splits_length, poolOf_length, hN]
+  apply pmf_sums_to_one_tied_partial n1 n2 T hT
+  · rw [tied_recurrence_exact T hpos hK n1 (by omega), groups_count_labelings_nat]
+    have : (Spec.UExact.nullDistOf n1 (poolOf T)).filter (fun (d : Nat) => decide ((d : Int) ≤ -1)) = [] := by
+      apply List.filter_eq_nil_iff.2
+      intro d _
+      simp only [decide_eq_true_eq]
+      omega
+    rw [this]; rfl
+  · rw [tied_recurrence_exact T hpos hK n1 (by omega), groups_count_labelings_nat]
+    have : (Spec.UExact.nullDistOf n1 (poolOf T)).filter
+        (fun (d : Nat) => decide ((d : Int) ≤ ((2 * (n1 * n2) : Nat) : Int)))
+          = Spec.UExact.nullDistOf n1 (poolOf T) := by
+      apply List.filter_eq_self.2
+      intro d hd
+      have := nullDistOf_le n1 (poolOf T) d hd
+      rw [poolOf_length, hN] at this
+      simp only [decide_eq_true_eq]
+      have h2 : n1 + n2 - n1 = n2 := by omega
+      rw [h2] at this
+      exact_mod_cast this
+    rw [this, hlen, choose_eq]
+  · rw [choose_eq]; exact (Nat.choose_pos (Nat.le_add_right n1 n2)).ne'
 
 end C11
